@@ -60,6 +60,9 @@ CHECKS = {
  'C18': ('exploration', 'runtime monitoring of the real file configuration on temp files: edit-history tracking with pinned mtimes against an independent properties parser, observer monitors, reader/reload stress under the race detector in a grandchild process, write-back diff oracles, atomicity sampler and (thorough) strace crash-point enumeration of the write-back',
          'Random edit histories (incl. several edits within one second) are followed by an immediate reload through the verif hook and all getters compared with an independent parse; observers must be notified; readers hammer getters during reloads; SetValues results are diffed line by line; a concurrent reader samples the file during write-back and, in the thorough tier, every syscall of the write-back is killed once with strace and the file must be complete old or new content.',
          'Uses the verif hooks VerifNew/VerifReloadNow/VerifStop; crash points are syscall boundaries only; lenient numeric spellings are accepted either way. Known write-back escaping findings are listed with their value class.', 'DESIGN.md §4 C18'),
+ 'C16': ('exploration', 'runtime monitoring of the real zip sender with a recording TcpClient (synchronous and retaining modes): offline exactly-once / order / count / decodability / compression-threshold / flush-trigger checkers over the emitted packs, hand-over snapshots for aliasing, settings read through a verif hook, Go race detector on the queue scenarios',
+         'Fresh senders (real GetInstance after the reset hook) receive uniquely numbered log records of 0 B..200 KiB with virtual timestamps through the queue (1..8 producers) or directly (Append, SendDirect), with default or ApplyConfig settings; every emitted pack is parsed by an independent parser (gunzip when flagged) and the record stream must be exactly what was handed over, counts must match, compression must follow the threshold, batches must close at the buffer/wait triggers and at stop, defaults must be in force, and retained packs must equal their hand-over snapshots.',
+         'Uses the verif hooks VerifResetInstance/VerifSettings; only interleavings the scheduler produced are covered; flush-trigger judgements in queue mode are skipped (never failed) when machine load stretched the drain; ApplyConfig concurrent with the loop is not driven.', 'DESIGN.md §4 C16'),
 }
 PENDING = 'check not built yet in this round (planned, see DESIGN.md §4); not claimed until its monitor exists and is silent on the unchanged tree'
 NA = {}
